@@ -476,15 +476,15 @@ func envLattices(r *ev.Run, P props, st *enumStats, dpathEvery int) {
 	})
 	// (c) exploitability side: AV,MAV,AC,MAC,PR,MPR,UI,MUI,S,MS complete x 2 versions at 12 impact settings
 	imp := []oracle.V3Case{
-		{C: 0, I: 0, A: 0, CR: 1, IR: 1, AR: 1},       // cap binds
-		{C: 0, I: 0, A: 0},                            // high, cap does not bind
-		{C: 2, I: 2, A: 2},                            // zero impact
-		{C: 2, I: 2, A: 1, AR: 3},                     // tiny impact
-		{C: 1, I: 2, A: 2, MC: 3},                     // modified to none
-		{C: 2, I: 2, A: 2, MA: 1, AR: 1},              // modified up
-		{C: 1, I: 1, A: 1, CR: 3, IR: 3, AR: 3},       // low requirements
+		{C: 0, I: 0, A: 0, CR: 1, IR: 1, AR: 1},        // cap binds
+		{C: 0, I: 0, A: 0},                             // high, cap does not bind
+		{C: 2, I: 2, A: 2},                             // zero impact
+		{C: 2, I: 2, A: 1, AR: 3},                      // tiny impact
+		{C: 1, I: 2, A: 2, MC: 3},                      // modified to none
+		{C: 2, I: 2, A: 2, MA: 1, AR: 1},               // modified up
+		{C: 1, I: 1, A: 1, CR: 3, IR: 3, AR: 3},        // low requirements
 		{C: 0, I: 1, A: 2, CR: 1, IR: 2, AR: 3, MI: 1}, // mixed
-		{C: 2, I: 1, A: 2, IR: 3},                     // changed-scope polynomial near zero
+		{C: 2, I: 1, A: 2, IR: 3},                      // changed-scope polynomial near zero
 		{C: 1, I: 1, A: 2, MC: 1, MI: 1, CR: 1, IR: 1}, // cap binds through modified
 		{C: 0, I: 2, A: 2, MC: 2, CR: 3},
 		{C: 2, I: 0, A: 0, MI: 2, MA: 3, AR: 1},
